@@ -25,11 +25,20 @@ import (
 
 	"verif/internal/ev"
 	"verif/internal/gen"
+	"verif/internal/lib"
 	"verif/internal/libkeys"
 	"verif/internal/model"
 )
 
 const rule = "cases: constructor arguments derived from generated specs - NewRouterInfo (Ed25519 identity, 0..8 addresses built by NewRouterAddress with arbitrary option maps incl. empty values and one-character keys, arbitrary options), NewLeaseSet (destination signing types DSA incl. NULL certificate, P-256, Ed25519, RedDSA; 0..16 leases), NewLeaseSet2 (every flag combination of bits 1-2, 1..16 keys, 1..16 leases, options, offline block created by CreateOfflineSignature with transient types 0,1,7,11), NewEncryptedLeaseSet and NewEncryptedLeaseSetFromDestination (all four accepted key representations, with and without offline block), CreateOfflineSignature (destination types 7, 11). Oracle: constructor succeeded with the private key matching the identity => Verify succeeds; Read*(Bytes()) succeeds with an empty remainder and the parsed value verifies; the independent verifier of C05 (stdlib crypto over the raw bytes, specification prefix) accepts the bytes. Non-trivial: >= 1 option, address, lease beyond the first, or offline block; distinct by output bytes minus signature."
+
+// touch calls every argument-free exported method of v (and of the library
+// values those return) once; a read-only accessor must not change what verifies.
+func touch(v any) int {
+	sw := &lib.Sweep{MaxDepth: 1}
+	sw.Run("", v)
+	return sw.Calls
+}
 
 // reuse overwrites a receive buffer the way the next message read into it would.
 // Only applied to the structures property C08 lists as independent of their input
@@ -108,6 +117,14 @@ func checkRI(c Case, r *ev.Rec) error {
 	if ok, err := back.VerifySignature(); !ok || err != nil {
 		return fmt.Errorf("RouterInfo no longer verifies after serialise+parse: %v %v", ok, err)
 	}
+	if n := touch(ri) + touch(&back); n > 0 {
+		if ok, err := ri.VerifySignature(); !ok || err != nil {
+			return fmt.Errorf("RouterInfo built by NewRouterInfo no longer verifies after its argument-free accessors were called: %v %v", ok, err)
+		}
+		if ok, err := back.VerifySignature(); !ok || err != nil {
+			return fmt.Errorf("RouterInfo parsed back no longer verifies after its argument-free accessors were called: %v %v", ok, err)
+		}
+	}
 	dm, n, err := model.DecodeRouterInfo(b)
 	if err != nil || n != len(b) {
 		return fmt.Errorf("independent decoder rejects NewRouterInfo output: %v", err)
@@ -174,6 +191,14 @@ func checkLS(c Case, r *ev.Rec) error {
 	reuse(wire)
 	if err := back.Verify(); err != nil {
 		return fmt.Errorf("LeaseSet parsed back from its bytes no longer verifies once the receive buffer is reused for other data: %v", err)
+	}
+	if n := touch(&ls) + touch(&back); n > 0 {
+		if err := ls.Verify(); err != nil {
+			return fmt.Errorf("LeaseSet built by NewLeaseSet no longer verifies after its argument-free accessors were called: %v", err)
+		}
+		if err := back.Verify(); err != nil {
+			return fmt.Errorf("LeaseSet parsed back no longer verifies after its argument-free accessors were called: %v", err)
+		}
 	}
 	dm, n, err := model.DecodeLeaseSet(b)
 	if err != nil || n != len(b) {
@@ -279,6 +304,14 @@ func checkLS2(c Case, r *ev.Rec) error {
 	if err := back.Verify(); err != nil {
 		return fmt.Errorf("LeaseSet2 no longer verifies after serialise+parse: %v", err)
 	}
+	if n := touch(&ls) + touch(&back); n > 0 {
+		if err := ls.Verify(); err != nil {
+			return fmt.Errorf("LeaseSet2 built by NewLeaseSet2 no longer verifies after its argument-free accessors were called: %v", err)
+		}
+		if err := back.Verify(); err != nil {
+			return fmt.Errorf("LeaseSet2 parsed back no longer verifies after its argument-free accessors were called: %v", err)
+		}
+	}
 	dm, n, err := model.DecodeLS2(b)
 	if err != nil || n != len(b) {
 		return fmt.Errorf("independent decoder rejects NewLeaseSet2 output: %v", err)
@@ -361,6 +394,14 @@ func checkELS(c Case, r *ev.Rec) error {
 	reuse(wire)
 	if err := back.Verify(); err != nil {
 		return fmt.Errorf("EncryptedLeaseSet parsed back from its bytes no longer verifies once the receive buffer is reused for other data: %v", err)
+	}
+	if n := touch(els) + touch(back); n > 0 {
+		if err := els.Verify(); err != nil {
+			return fmt.Errorf("EncryptedLeaseSet built by the constructor no longer verifies after its argument-free accessors were called: %v", err)
+		}
+		if err := back.Verify(); err != nil {
+			return fmt.Errorf("EncryptedLeaseSet parsed back no longer verifies after its argument-free accessors were called: %v", err)
+		}
 	}
 	dm, n, err := model.DecodeELS(b)
 	if err != nil || n != len(b) {
